@@ -15,9 +15,10 @@ import (
 
 func init() {
 	fw.Register(&fw.Property{
-		ID:     "C08",
-		Level:  "exploration",
-		Jitter: true,
+		ID:         "C08",
+		Level:      "exploration",
+		Jitter:     true,
+		RaceSample: true,
 		Rule: "(a) bounded-exhaustive grid: bin supplies (same,up,down,side) in {0..3}^4 realised by constructed targets with distinct and deliberately tied (distance, ambiguity) keys, x requested sizes in {0..3}^4 minus 0000 via --size-*, x --no-fill, plus --size-total 1..14 (quick samples the request axis, thorough runs all 130560 points); (b) random tie-rich inputs with shared SNPs, multiple hits and ambiguity tracts under --size-total/--size-*, --no-fill, --dist-all/-up/-down/-side, --dist-push, --threshold-pair, --threshold-target, --ignore, --table; " +
 			"distinct non-trivial = distinct grid points (supply, request, no-fill) plus distinct (mode, bins non-empty, threshold bound, dist bound, tie kinds, multiple hit, push k) tuples of random cases",
 		Assumptions: []string{"the proportion used by --threshold-pair is the help text's: ambiguous consequential sites / (query-only + shared + target-only + ambiguous), evaluated in float32",
